@@ -9,7 +9,7 @@ import (
 // Args are what the reference model evaluates.
 type arg struct {
 	V float64 `json:"v"`
-	U string  `json:"u,omitempty"` // "", px pt pc in cm mm q em rem %, deg grad rad turn (lower case)
+	U string  `json:"u,omitempty"` // "", px pt pc in cm mm q em ex ch rem %, deg grad rad turn (lower case)
 }
 
 type fn struct {
@@ -28,6 +28,13 @@ type lenCtx struct {
 	RootFS float64 // font-size of the root element (rem)
 }
 
+// metrics of the test font Ahem (https://www.w3.org/Style/CSS/Test/Fonts/Ahem/README: "the
+// x-height is 0.8em", every glyph has an advance of 1em)
+const (
+	ahemExRatio = 0.8
+	ahemChRatio = 1.0
+)
+
 var absLen = map[string]float64{
 	"px": 1, "pt": 96.0 / 72, "pc": 16, "in": 96, "cm": 96 / 2.54, "mm": 96 / 25.4, "q": 96 / 25.4 / 4,
 }
@@ -44,6 +51,13 @@ func (c lenCtx) length(a arg, ref float64) (float64, error) {
 		return a.V * ref / 100, nil
 	case "em":
 		return a.V * c.FS, nil
+	case "ex":
+		// CSS Values 3 §5.1.1: "equal to the used x-height of the first available font"; every
+		// generated document uses the test font Ahem, whose x-height is 0.8em
+		return a.V * c.FS * ahemExRatio, nil
+	case "ch":
+		// "the advance measure of the '0' glyph": Ahem's glyphs are all 1em wide
+		return a.V * c.FS * ahemChRatio, nil
 	case "rem":
 		return a.V * c.RootFS, nil
 	}
